@@ -209,6 +209,8 @@ class Ctx:
 
             def fn(args):       # pylint: disable=E0102
                 kval = jhash(key(*args))
+                if kval in state.get("ignored", ()):
+                    return          # failure the ground truth did not confirm
                 if kval in state["cache"]:
                     self._last_failure = state["cache"][kval]
                     raise self._last_failure
@@ -222,7 +224,7 @@ class Ctx:
                     state["failed"] = True
                     state["cache"][kval] = err
                     raise
-        for attempt in range(MAX_BUCKETS):
+        for attempt in range(MAX_BUCKETS + 3):
             if key is not None:
                 state.update(failed=False, after=0)
             test = hypothesis.seed(self.hseed(salt) + attempt)(
@@ -235,9 +237,19 @@ class Ctx:
                 # Hypothesis re-raises the minimal failing example last.
                 fail = self._last_failure or err
                 if confirm is not None and not confirm(fail):
-                    # not confirmed by the ground-truth oracle: ignore this
-                    # bucket for the rest of the run (never a violation)
-                    self.reported.add(fail.bucket)
+                    # not confirmed by the ground-truth oracle: never a
+                    # violation. With a key, only the unconfirmed examples
+                    # are ignored and the search goes on; otherwise the
+                    # whole bucket is ignored for the rest of the run.
+                    if key is not None:
+                        ign = state.setdefault("ignored", set())
+                        ign.update(k for k, v in state["cache"].items()
+                                   if v.bucket == fail.bucket)
+                        state["cache"] = {k: v for k, v in
+                                          state["cache"].items()
+                                          if v.bucket != fail.bucket}
+                    else:
+                        self.reported.add(fail.bucket)
                     continue
                 self.record(fail)
             except hypothesis.errors.Flaky as err:
